@@ -19,6 +19,7 @@ import (
 type acceptHook struct {
 	mu      sync.Mutex
 	reject  bool
+	panics  bool   // the hook rejects by panicking instead of returning a status
 	setID   string // "" = leave the default id
 	entered int
 }
@@ -32,6 +33,9 @@ func (h *acceptHook) PostAccept(s erpc.PreSession) *erpc.Status {
 		s.SetID(h.setID)
 	}
 	if h.reject {
+		if h.panics {
+			panic("accept hook failed: nil map write in an admission plugin")
+		}
 		return erpc.NewStatus(403, "rejected by accept hook", "c07")
 	}
 	return nil
@@ -219,7 +223,7 @@ func (x *c07World) freshID() string {
 	return fmt.Sprintf("id-%d", x.nextID)
 }
 
-const ruleC07 = "rapid state machine over one serving peer and one dialling peer: actions {connect with accept-hook verdict accept/reject, hook optionally SetID (fresh or colliding with a live session), SetID on a live session (fresh / same / colliding), call, push, close by the serving side / by the remote side / by cutting the connection, Close again on a closed session, call and push on a closed session}; after EVERY action, at a quiescent point (all modelled close notifications awaited), the invariant compares GetSession/CountSession/RangeSession with the model, Health with liveness, close notifications, and the per-session disconnect-hook count (exactly 1 for closed established sessions, 0 for live ones); at the end the peer is closed and everything is re-checked; non-trivial = history has a SetID collision, a close of an indexed session or a rejected accept; distinct by action history"
+const ruleC07 = "rapid state machine over one serving peer and one dialling peer: actions {connect with accept-hook verdict accept / reject by status / reject by panicking, hook optionally SetID (fresh or colliding with a live session), SetID on a live session (fresh / same / colliding), call, push, close by the serving side / by the remote side / by cutting the connection, Close again on a closed session, call and push on a closed session}; after EVERY action, at a quiescent point (all modelled close notifications awaited), the invariant compares GetSession/CountSession/RangeSession with the model, Health with liveness, close notifications, and the per-session disconnect-hook count (exactly 1 for closed established sessions, 0 for live ones); at the end the peer is closed and everything is re-checked; non-trivial = history has a SetID collision, a close of an indexed session or a rejected accept; distinct by action history"
 
 func TestC07Lifecycle(t *testing.T) {
 	rec := vt.NewRec(t, "C07", "lifecycle", ruleC07)
@@ -242,6 +246,7 @@ func TestC07Lifecycle(t *testing.T) {
 					t.Skip("enough links")
 				}
 				reject := rapid.IntRange(0, 3).Draw(t, "reject") == 0
+				panics := reject && rapid.IntRange(0, 2).Draw(t, "panics") == 0
 				idMode := rapid.SampledFrom([]string{"default", "default", "fresh", "collide"}).Draw(t, "idmode")
 				setID := ""
 				var victim *c07Link
@@ -255,12 +260,12 @@ func TestC07Lifecycle(t *testing.T) {
 					}
 				}
 				x.hook.mu.Lock()
-				x.hook.reject, x.hook.setID = reject, setID
+				x.hook.reject, x.hook.setID, x.hook.panics = reject, setID, panics
 				x.hook.mu.Unlock()
-				x.logf("connect reject=%v hookSetID=%q", reject, setID)
+				x.logf("connect reject=%v (by panic=%v) hookSetID=%q", reject, panics, setID)
 				l := x.w.Connect(x.cli, x.srv, x.proto, nil)
 				x.hook.mu.Lock()
-				x.hook.reject, x.hook.setID = false, ""
+				x.hook.reject, x.hook.setID, x.hook.panics = false, "", false
 				x.hook.mu.Unlock()
 				cl := &c07Link{n: len(x.links), link: l, srv: l.B, cli: l.A}
 				x.links = append(x.links, cl)
@@ -269,7 +274,7 @@ func TestC07Lifecycle(t *testing.T) {
 					if l.B != nil || l.BStat.OK() {
 						x.fail("accept hook rejected but ServeConn returned a session / OK status")
 					}
-					if l.BStat.Code() != 403 {
+					if l.BStat.Code() != 403 && !panics {
 						x.fail("rejected accept returned status %v, want the hook's 403", l.BStat)
 					}
 					// the remote end observes the close
@@ -654,6 +659,7 @@ func TestC07HookGate(t *testing.T) {
 // dialHook is the dialling-side counterpart of the accept hook.
 type dialHook struct {
 	reject bool
+	panics bool
 	setID  string
 }
 
@@ -663,6 +669,9 @@ func (h *dialHook) PostDial(s erpc.PreSession, isRedial bool) *erpc.Status {
 		s.SetID(h.setID)
 	}
 	if h.reject {
+		if h.panics {
+			panic("dial hook failed")
+		}
 		return erpc.NewStatus(403, "rejected by dial hook", "c07")
 	}
 	return nil
@@ -700,6 +709,7 @@ func TestC07DialHook(t *testing.T) {
 		}
 		first.SetID("existing")
 		hook.reject = reject
+		hook.panics = reject && rapid.IntRange(0, 2).Draw(t, "panics") == 0
 		switch idMode {
 		case "fresh":
 			hook.setID = "fresh-id"
@@ -707,7 +717,7 @@ func TestC07DialHook(t *testing.T) {
 			hook.setID = "existing"
 		}
 		sess, st := cli.Dial(ts.addr)
-		hook.reject, hook.setID = false, ""
+		hook.reject, hook.setID, hook.panics = false, "", false
 		wantLive := map[string]bool{"existing": true}
 		if idMode == "collide" {
 			// the id was taken over inside the hook: the older session is closed either way
